@@ -21,9 +21,9 @@ CHECKS["C01"] = dict(
     assumptions=["subscriber ids colliding under 32-bit murmur and contract ids equal to wildcard hash constants are outside the sampled domain",
                  "concurrent leg: interleavings are whatever the Go scheduler yields (sampled, not enumerated)"],
     legs=[
-        dict(name="trie-emitter", test="^TestTrieEmitter$", quick=dict(n=3000, procs=2, timeout=240), thorough=dict(n=300000, procs=6, timeout=1500)),
-        dict(name="trie-mqtt", test="^TestTrieMQTT$", quick=dict(n=3000, procs=2, timeout=240), thorough=dict(n=300000, procs=6, timeout=1500)),
-        dict(name="counters", test="^TestCounters$", quick=dict(n=5000, procs=1, timeout=240), thorough=dict(n=500000, procs=2, timeout=1500)),
+        dict(name="trie-emitter", test="^TestTrieEmitter$", quick=dict(n=3000, procs=2, timeout=240), thorough=dict(n=1500000, procs=6, timeout=3000)),
+        dict(name="trie-mqtt", test="^TestTrieMQTT$", quick=dict(n=3000, procs=2, timeout=240), thorough=dict(n=1500000, procs=6, timeout=3000)),
+        dict(name="counters", test="^TestCounters$", quick=dict(n=5000, procs=1, timeout=240), thorough=dict(n=3000000, procs=4, timeout=3000)),
         dict(name="concurrent", test="^(TestConcurrent|TestShareBothMembers)$", kind="plain", quick=dict(n=20, procs=1, timeout=240), thorough=dict(n=800, procs=2, timeout=1500)),
     ],
 )
@@ -55,7 +55,7 @@ CHECKS["C16"] = dict(
                "packets, topic filters >=1 char), the neutral description and field maps in the harness.",
     rule="rapid-generated packet descriptions; non-trivial = remaining length needs >=2 bytes or any non-default flag/QoS/return code; distinct = distinct description.",
     assumptions=["packets whose total size exceeds the 64 KiB encoder buffer are out of scope (counted as excluded)"],
-    legs=[dict(name="differential", test="^TestCodecDifferential$", quick=dict(n=20000, procs=4, timeout=300), thorough=dict(n=1500000, procs=12, timeout=2400)),
+    legs=[dict(name="differential", test="^TestCodecDifferential$", quick=dict(n=20000, procs=4, timeout=300), thorough=dict(n=5000000, procs=12, timeout=3000)),
           dict(name="fuzz-seeds", test="^FuzzDecode$", kind="plain", quick=dict(n=1, procs=1, timeout=120), thorough=dict(n=1, procs=1, timeout=120)),
           dict(name="fuzz-decode", kind="fuzz", fuzz="FuzzDecode", thorough=dict(fuzztime=240, workers=8))],
 )
@@ -75,11 +75,11 @@ CHECKS["C20"] = dict(
     assumptions=["the v2/v3 character-level mutations run only in the child worker; in-process v2/v3 strings are truncations / suffix changes"],
     legs=[
         dict(name="license", test="^TestLicenseRoundtrip$", quick=dict(n=3000, procs=1, timeout=300), thorough=dict(n=200000, procs=2, timeout=1800)),
-        dict(name="key", test="^TestKeyRoundtrip$", quick=dict(n=20000, procs=2, timeout=300), thorough=dict(n=2000000, procs=4, timeout=1800)),
+        dict(name="key", test="^TestKeyRoundtrip$", quick=dict(n=20000, procs=2, timeout=300), thorough=dict(n=5000000, procs=6, timeout=3000)),
         dict(name="collisions", test="^TestNoCollisions$", kind="plain", quick=dict(n=20000, procs=1, timeout=300), thorough=dict(n=300000, procs=2, timeout=1800)),
         dict(name="concurrent", test="^TestConcurrentCipher$", kind="plain", quick=dict(n=20000, procs=1, timeout=300), thorough=dict(n=400000, procs=1, timeout=1800)),
-        dict(name="reject", test="^TestDecryptRejects$", quick=dict(n=20000, procs=2, timeout=300), thorough=dict(n=2000000, procs=4, timeout=1800)),
-        dict(name="parse", test="^TestParseArbitrary$", quick=dict(n=20000, procs=2, timeout=300), thorough=dict(n=2000000, procs=4, timeout=1800)),
+        dict(name="reject", test="^TestDecryptRejects$", quick=dict(n=20000, procs=2, timeout=300), thorough=dict(n=5000000, procs=6, timeout=3000)),
+        dict(name="parse", test="^TestParseArbitrary$", quick=dict(n=20000, procs=2, timeout=300), thorough=dict(n=5000000, procs=6, timeout=3000)),
         dict(name="parse-hostile", test="^(TestProbeParseOOM|TestParseHostile)$", quick=dict(n=3000, procs=2, timeout=300), thorough=dict(n=200000, procs=4, timeout=1800)),
     ],
 )
@@ -129,9 +129,9 @@ CHECKS["C17"] = dict(
                "not generated (bufio gives up after 100 empty reads: a documented reader limit).",
     rule="rapid-generated cases; non-trivial = (a) >=1 matcher peeked and the consumer's first read is either small (<8) or spans the replay boundary, (b) >=1 queued "
          "write, (c) stream longer than the first read or control frames present, (d) >=1 message larger than the client's write buffer; distinct = distinct case value.",
-    legs=[dict(name="sniffer", test="^TestSniffer$", quick=dict(n=6000, procs=2, timeout=300), thorough=dict(n=600000, procs=6, timeout=2400)),
+    legs=[dict(name="sniffer", test="^TestSniffer$", quick=dict(n=6000, procs=2, timeout=300), thorough=dict(n=3000000, procs=8, timeout=3000)),
           dict(name="writes", test="^TestWrites$", quick=dict(n=1500, procs=4, timeout=400), thorough=dict(n=60000, procs=14, timeout=2400)),
-          dict(name="websocket", test="^TestWebsocket$", quick=dict(n=4000, procs=2, timeout=300), thorough=dict(n=400000, procs=6, timeout=2400)),
+          dict(name="websocket", test="^TestWebsocket$", quick=dict(n=4000, procs=2, timeout=300), thorough=dict(n=2000000, procs=8, timeout=3000)),
           dict(name="websocket-real", test="^TestRealWebsocket$", quick=dict(n=300, procs=2, timeout=300), thorough=dict(n=20000, procs=6, timeout=2400))],
 )
 
@@ -148,7 +148,7 @@ CHECKS["C06"] = dict(
                "Negative limits are out of the property's domain (C09 covers them).",
     rule="rapid-generated (store, queries) cases; non-trivial = some query has a non-empty candidate set that is a strict subset of the store and (a colliding foreign "
          "contract message, an expired message, or a continuation) is involved; distinct = distinct case value.",
-    legs=[dict(name="inmemory", test="^TestQueryInMemory$", quick=dict(n=4000, procs=4, timeout=300), thorough=dict(n=120000, procs=10, timeout=2400)),
+    legs=[dict(name="inmemory", test="^TestQueryInMemory$", quick=dict(n=4000, procs=4, timeout=300), thorough=dict(n=600000, procs=10, timeout=3000)),
           dict(name="big-store", test="^TestBigStore$", kind="plain", quick=dict(n=1, procs=1, timeout=300), thorough=dict(n=1, procs=1, timeout=300)),
           dict(name="disk", test="^TestQueryDisk$", quick=dict(n=1000, procs=2, timeout=300), thorough=dict(n=30000, procs=6, timeout=2400))],
 )
@@ -169,8 +169,8 @@ CHECKS["C03"] = dict(
     rule="matrix cells + generated tuples + masks; non-trivial = matrix cell that is allowed or refused by exactly one level / one depth step; tuple where exactly "
          "one conjunct fails or all hold; distinct = distinct case value.",
     legs=[dict(name="matrix", test="^TestCoversMatrix$", kind="plain", quick=dict(n=1, procs=1, timeout=300), thorough=dict(n=1, procs=1, timeout=1200)),
-          dict(name="deep", test="^TestCoversDeep$", quick=dict(n=20000, procs=2, timeout=300), thorough=dict(n=2000000, procs=4, timeout=2400)),
-          dict(name="authorize", test="^TestAuthorize$", quick=dict(n=6000, procs=3, timeout=300), thorough=dict(n=600000, procs=12, timeout=2400)),
+          dict(name="deep", test="^TestCoversDeep$", quick=dict(n=20000, procs=2, timeout=300), thorough=dict(n=5000000, procs=6, timeout=3000)),
+          dict(name="authorize", test="^TestAuthorize$", quick=dict(n=6000, procs=3, timeout=300), thorough=dict(n=4000000, procs=12, timeout=3000)),
           dict(name="entry-points", test="^TestEntryPoints$", kind="plain", quick=dict(n=1, procs=1, timeout=300), thorough=dict(n=1, procs=1, timeout=600))],
 )
 
@@ -189,7 +189,7 @@ CHECKS["C11"] = dict(
                "format's epoch (2010-01-01) is not representable: such a key must already be expired with the earliest representable expiry.",
     rule="rapid-generated requests; non-trivial = a key was issued from a master, or the request asks for permissions the parent lacks, or a refusal caused by a "
          "parent defect with a well-formed channel; distinct = distinct case value.",
-    legs=[dict(name="keygen", test="^(TestProbeTTLUnderflow|TestKeygen)$", quick=dict(n=6000, procs=3, timeout=300), thorough=dict(n=600000, procs=12, timeout=2400)),
+    legs=[dict(name="keygen", test="^(TestProbeTTLUnderflow|TestKeygen)$", quick=dict(n=6000, procs=3, timeout=300), thorough=dict(n=4000000, procs=12, timeout=3000)),
           dict(name="extendable", test="^TestExtendableUnusable$", kind="plain", quick=dict(n=1, procs=1, timeout=300), thorough=dict(n=1, procs=1, timeout=300))],
 )
 
@@ -204,7 +204,7 @@ CHECKS["C12"] = dict(
     level_note="Trusted: keys built field by field, the probe set. A 2^-32 forgery cannot be found by sampling; this check finds structural malleability only. "
                "Listed findings: v2/v3 ciphers are unauthenticated stream ciphers (bit flips beyond the salt bytes change permissions/target/expiry at will).",
     rule="rapid-generated (key, modification) pairs + enumerated single-bit flips; non-trivial = the modified string is still 32 valid characters; distinct = distinct case value.",
-    legs=[dict(name="tamper", test="^TestTamper$", quick=dict(n=6000, procs=3, timeout=300), thorough=dict(n=600000, procs=12, timeout=2400)),
+    legs=[dict(name="tamper", test="^TestTamper$", quick=dict(n=6000, procs=3, timeout=300), thorough=dict(n=4000000, procs=12, timeout=3000)),
           dict(name="issued-splice", test="^TestSpliceIssuedKeys$", kind="plain", quick=dict(n=200, procs=1, timeout=300), thorough=dict(n=5000, procs=2, timeout=900)),
           dict(name="bitflips", test="^TestSingleBitFlips$", kind="plain", quick=dict(n=1, procs=1, timeout=300), thorough=dict(n=1, procs=1, timeout=300))],
 )
@@ -223,10 +223,10 @@ CHECKS["C19"] = dict(
                "messages at or above the split bound cannot occur in the broker (64 KiB packet cap vs 10 MiB bound) and are excluded (counted).",
     rule="rapid cases + stress rounds; non-trivial = frame of >=2 messages or a large payload/ttl, >=2 time steps, a frame that splits into >=2 chunks, a peer round with "
          ">=2 concurrent senders; distinct = distinct case value.",
-    legs=[dict(name="codec", test="^TestCodec$", quick=dict(n=3000, procs=2, timeout=300), thorough=dict(n=300000, procs=6, timeout=2400)),
-          dict(name="ids", test="^TestIDs$", quick=dict(n=5000, procs=1, timeout=300), thorough=dict(n=500000, procs=2, timeout=2400)),
+    legs=[dict(name="codec", test="^TestCodec$", quick=dict(n=3000, procs=2, timeout=300), thorough=dict(n=1500000, procs=8, timeout=3000)),
+          dict(name="ids", test="^TestIDs$", quick=dict(n=5000, procs=1, timeout=300), thorough=dict(n=3000000, procs=4, timeout=3000)),
           dict(name="ids-concurrent", test="^TestIDsDistinctConcurrent$", kind="plain", quick=dict(n=3, procs=1, timeout=300), thorough=dict(n=60, procs=2, timeout=1200)),
-          dict(name="split", test="^TestSplit$", quick=dict(n=10000, procs=1, timeout=300), thorough=dict(n=1000000, procs=2, timeout=2400)),
+          dict(name="split", test="^TestSplit$", quick=dict(n=10000, procs=1, timeout=300), thorough=dict(n=4000000, procs=4, timeout=3000)),
           dict(name="peer", test="^TestPeerForwarding$", kind="plain", quick=dict(n=12, procs=2, timeout=300), thorough=dict(n=600, procs=6, timeout=2400))],
 )
 
